@@ -165,7 +165,26 @@ static int run_random(uint64_t seed, long n, int maxfaces) {
   return 0;
 }
 
+// dense lists: 5..8 uniformly random faces over exactly 5 (every fourth list: 6) vertex ids -- folded fans in which an edge is met again on the
+// other side of the starting corner need at least 5 faces over 5 ids and are rare among the biased lists above
+static int run_dense(uint64_t seed, long n) {
+  vrt::Rng r(seed);
+  for (long i = 0; i < n; ++i) {
+    const int nf = r.range(5, 8), nv = (i % 4 == 3) ? 6 : 5;
+    std::vector<int> F;
+    for (int f = 0; f < nf; ++f) {
+      int a = r.range(0, nv - 1), b = r.range(0, nv - 1), c = r.range(0, nv - 1);
+      if (r.coin(9, 10)) { while (b == a) b = r.range(0, nv - 1); while (c == a || c == b) c = r.range(0, nv - 1); }
+      F.push_back(a); F.push_back(b); F.push_back(c);
+    }
+    emit(F, run_ct(F), true, "dense");
+  }
+  fprintf(stderr, "STATS run=%lld emitted=%lld diff=0\n", n_run, n_emit);
+  return 0;
+}
+
 int main(int argc, char **argv) {
+  if (argc >= 4 && !strcmp(argv[1], "dense")) return run_dense(strtoull(argv[2], 0, 10), atol(argv[3]));
   if (argc >= 4 && !strcmp(argv[1], "replay")) return run_replay(argv[2], atoi(argv[3]));
   if (argc >= 4 && !strcmp(argv[1], "enum4")) return run_enum4(strtoull(argv[2], 0, 10), atol(argv[3]));
   if (argc >= 5 && !strcmp(argv[1], "random")) return run_random(strtoull(argv[2], 0, 10), atol(argv[3]), atoi(argv[4]));
